@@ -375,6 +375,16 @@ func (fs *fsMutable) Rename(ctx context.Context, op *fuseops.RenameOp) (err erro
 	fs.lock.Lock()
 	defer fs.lock.Unlock()
 
+	for _, parent := range []fuseops.InodeID{op.OldParent, op.NewParent} {
+		pn, ok := fs.iNodeStore.Get(formKey(parent))
+		if !ok {
+			return jfuse.ENOENT
+		}
+		if !pn.(*nodeEntry).attr.Mode.IsDir() {
+			return jfuse.ENOTDIR
+		}
+	}
+
 	// Find the old child
 	oldChild, found, _ := fs.lookup(op.OldParent, op.OldName)
 	if !found {
@@ -382,11 +392,24 @@ func (fs *fsMutable) Rename(ctx context.Context, op *fuseops.RenameOp) (err erro
 	}
 	newChild, found, _ := fs.lookup(op.NewParent, op.NewName)
 	if found {
-		if newChild.mode.IsDir() {
-			return jfuse.ENOSYS
+		if newChild.iNode == oldChild.iNode {
+			return nil // same entry: nothing to do
 		}
-		// Delete new child, ignore if not present
-		_ = fs.deleteNSEntry(op.NewParent, op.NewName, nsAny)
+		on, okOld := fs.iNodeStore.Get(formKey(oldChild.iNode))
+		nn, okNew := fs.iNodeStore.Get(formKey(newChild.iNode))
+		if okOld && okNew {
+			oldIsDir, newIsDir := on.(*nodeEntry).attr.Mode.IsDir(), nn.(*nodeEntry).attr.Mode.IsDir()
+			if oldIsDir && !newIsDir {
+				return jfuse.ENOTDIR
+			}
+			if !oldIsDir && newIsDir {
+				return syscall.EISDIR
+			}
+		}
+		// Replace the new child: a directory must be empty
+		if err = fs.deleteNSEntry(op.NewParent, op.NewName, nsAny); err != nil {
+			return err
+		}
 	}
 
 	// Insert iNode into new readDir and lookup and remove from old.
